@@ -408,4 +408,374 @@ theorem RInv.step (h : WF nodes nbrs delay dur infs recs) {sel : Nat} {s s' : ES
 
 end Rows
 
+section RowsLoop
+variable {nodes : List Node} {nbrs : Node → List Node} {delay : Node → Node → ERat} {dur : Node → ERat}
+  {tmin : Rat} {tmax : ERat} {infs recs : List Node}
+
+theorem RInv.init (h : WF nodes nbrs delay dur infs recs) (hrn : recs.Nodup)
+    (htm : ERat.lt (some tmin) tmax = true) :
+    RInv nodes tmin tmax (init (tableParams nodes nbrs delay dur tmin tmax) infs recs) := by
+  obtain ⟨c1, c2, c3⟩ := cnt_init nodes recs h.nodup hrn h.recs_mem
+  refine ⟨[⟨tmin, (nodes.length : Int) - (recs.length : Int), 0, (recs.length : Int)⟩], rfl, rfl, rfl, rfl, ?_⟩
+  exact {
+    st_nodes := by
+      intro v hv
+      by_cases hvr : v ∈ recs
+      · exact h.recs_mem v hvr
+      · exfalso; apply hv
+        show (if v ∈ recs then St.R else St.S) = St.S
+        rw [if_neg hvr]
+    head := by
+      refine ⟨_, [], rfl, c1.symm, c2.symm, c3.symm, ?_⟩
+      intro x hx
+      have hx' : x ∈ initQueue (tableParams nodes nbrs delay dur tmin tmax) infs [] := hx
+      rw [initQueue_table, List.nil_append, if_pos htm] at hx'
+      simp only [List.mem_map] at hx'
+      obtain ⟨u, _, rfl⟩ := hx'
+      exact le_refl _
+    chain := by simp
+    all := by
+      intro r hr
+      simp only [List.mem_singleton] at hr
+      subst hr
+      have n1 := cnt_nonneg nodes (fun v => if v ∈ recs then St.R else St.S) St.S
+      simp only
+      exact ⟨le_refl _, htm, by omega, by omega, by omega, by omega⟩
+    cntT := by
+      show ([] : List TEv).countP _ + 1 ≤ _
+      simp }
+
+theorem RInv.loop (h : WF nodes nbrs delay dur infs recs) (sel : Nat → Nat) (fuel : Nat) :
+    ∀ (k : Nat) (s : ESState), Inv nodes nbrs delay dur tmin tmax infs recs s → RInv nodes tmin tmax s →
+      RInv nodes tmin tmax (loop (tableParams nodes nbrs delay dur tmin tmax) sel fuel k s) := by
+  induction fuel with
+  | zero => intro k s _ hR; exact hR
+  | succ fuel ih =>
+    intro k s hI hR
+    unfold EventSIR.loop
+    split
+    · exact hR
+    · rename_i s' hs
+      exact ih _ _ (hI.step h hs) (hR.step h hI hs)
+
+theorem RInv.run (h : WF nodes nbrs delay dur infs recs) (hrn : recs.Nodup) (htm : ERat.lt (some tmin) tmax = true)
+    (sel : Nat → Nat) (fuel : Nat) :
+    RInv nodes tmin tmax (run (tableParams nodes nbrs delay dur tmin tmax) sel infs recs fuel) :=
+  RInv.loop h sel fuel 0 _ (Inv.init h) (RInv.init h hrn htm)
+
+/-- once the queue is empty every initial node has been reported, at `tmin` -/
+theorem Inv.infs_reported (h : WF nodes nbrs delay dur infs recs) {s : ESState}
+    (hI : Inv nodes nbrs delay dur tmin tmax infs recs s) (hq : s.queue = [])
+    (htm : ERat.lt (some tmin) tmax = true) : ∀ v ∈ infs, ∃ e ∈ s.trans, e.2.2 = v ∧ e.1 = tmin := by
+  intro v hv
+  have hvr : v ∉ recs := h.disjoint v hv
+  have hns : s.status v ≠ St.S := by
+    intro hs
+    obtain ⟨p0, hp0, hle⟩ := ERat.le_some_iff.1 (hI.pred_init v hv hs)
+    have hlt : ERat.lt (some p0) tmax = true := ERat.lt_of_le_of_lt (by simpa using hle) htm
+    obtain ⟨x, hx, _⟩ := hI.pred_q v p0 hs hp0 hlt
+    rw [hq] at hx; simp at hx
+  obtain ⟨e, he, hev⟩ := InvC.mem_of_not_S hI hns hvr
+  refine ⟨e, he, hev, le_antisymm ?_ ?_⟩
+  · apply hI.tr_opt e he [] tmin
+    rw [hev]; exact GW.init _ ⟨hv, hvr⟩
+  · obtain ⟨p, hp⟩ := hI.tr_walk e he
+    exact GW.t0_le (Et_nonneg h) hp
+
+theorem Inv.infs_count (h : WF nodes nbrs delay dur infs recs) {s : ESState}
+    (hI : Inv nodes nbrs delay dur tmin tmax infs recs s) (hq : s.queue = [])
+    (htm : ERat.lt (some tmin) tmax = true) :
+    infs.length ≤ s.trans.countP fun e => decide (e.1 = tmin) := by
+  rw [List.countP_eq_length_filter, ← List.length_map (f := fun e : TEv => e.2.2)]
+  apply nodup_length_le h.infs_nodup
+  intro v hv
+  obtain ⟨e, he, hev, het⟩ := hI.infs_reported h hq htm v hv
+  exact List.mem_map.2 ⟨e, List.mem_filter.2 ⟨he, by simpa using het⟩, hev⟩
+
+/-- in a time-ordered list starting at `tmin` with at least `k+1` rows at `tmin`, row `k` is at `tmin` -/
+theorem drop_head_tmin (tmin : Rat) : ∀ (c : List Row), c.Pairwise (fun a b => a.t ≤ b.t) → (∀ r ∈ c, tmin ≤ r.t) →
+    ∀ k, k + 1 ≤ (c.countP fun r => decide (r.t = tmin)) → ∃ r rest, c.drop k = r :: rest ∧ r.t = tmin := by
+  intro c
+  induction c with
+  | nil => intro _ _ k hk; simp at hk
+  | cons a c ih =>
+    intro hp hge k hk
+    rw [List.pairwise_cons] at hp
+    cases k with
+    | zero =>
+      refine ⟨a, c, rfl, ?_⟩
+      have hpos : 0 < ((a :: c).countP fun r => decide (r.t = tmin)) := by omega
+      obtain ⟨r, hr, hrt⟩ := List.countP_pos_iff.1 hpos
+      simp only [decide_eq_true_eq] at hrt
+      have h1 := hge a (List.mem_cons_self ..)
+      rcases List.mem_cons.1 hr with rfl | hr
+      · exact hrt
+      · have := hp.1 r hr
+        linarith
+    | succ k =>
+      rw [List.drop_succ_cons]
+      apply ih hp.2 (fun r hr => hge r (List.mem_cons_of_mem _ hr))
+      rw [List.countP_cons] at hk
+      split_ifs at hk <;> omega
+
+theorem chain_le_pairwise (c : List Row) (hc : c.IsChain (fun a b => a.t ≤ b.t)) :
+    c.Pairwise (fun a b => a.t ≤ b.t) := by
+  have : Trans (fun a b : Row => a.t ≤ b.t) (fun a b : Row => a.t ≤ b.t) (fun a b : Row => a.t ≤ b.t) :=
+    ⟨fun h1 h2 => le_trans h1 h2⟩
+  exact List.isChain_iff_pairwise.1 hc
+
+/-- **C04 core**: a terminated state satisfying both invariants has well-formed rows -/
+theorem rows_wf_core (h : WF nodes nbrs delay dur infs recs) (htm : ERat.lt (some tmin) tmax = true) {s : ESState}
+    (hI : Inv nodes nbrs delay dur tmin tmax infs recs s) (hR : RInv nodes tmin tmax s) (hq : s.queue = []) :
+    Pred.wellFormed TrajKind.sirCont nodes.length tmin tmax false false (traj s infs.length) = true := by
+  obtain ⟨rs, et, eS, eI, eR, hC⟩ := hR
+  have htraj : traj s infs.length =
+      { times := (rs.reverse.drop infs.length).map (·.t),
+        cols := [(rs.reverse.drop infs.length).map (·.S), (rs.reverse.drop infs.length).map (·.I),
+                 (rs.reverse.drop infs.length).map (·.R)] } := by
+    unfold traj rows
+    simp only [et, eS, eI, eR, List.map_drop, List.map_reverse]
+  rw [htraj]
+  have hch : rs.reverse.IsChain (fun a b => mv b a) := List.isChain_reverse.2 hC.chain
+  have hcnt := hI.infs_count h hq htm
+  have hcntT := hC.cntT
+  apply wellFormed_of_rows
+  · apply drop_head_tmin tmin rs.reverse
+    · exact chain_le_pairwise _ (hch.imp fun a b hab => hab.1)
+    · intro r hr; exact (hC.all r (List.mem_reverse.1 hr)).1
+    · rw [List.countP_reverse]; exact le_trans (Nat.succ_le_succ hcnt) hcntT
+  · exact hch.drop _
+  · intro r hr
+    have := hC.all r (List.mem_reverse.1 (List.mem_of_mem_drop hr))
+    exact ⟨this.2.1, this.2.2.1, this.2.2.2.1, this.2.2.2.2.1, this.2.2.2.2.2⟩
+
+end RowsLoop
+
+/-! ### `heapq` tie-breaking (`sel = 0`): the initial events are popped first -/
+
+theorem minTime_cons_of_le (x : QItem) (rest : List QItem) (hmin : ∀ y ∈ rest, x.time ≤ y.time) :
+    minTime (x :: rest) = some x.time := by
+  rcases minTime_spec rest with ⟨h0, _⟩ | ⟨m, h0, _, y, hy, hym⟩
+  · simp [minTime, h0]
+  · have := hmin y hy
+    simp only [minTime, h0]
+    rw [if_pos (by rw [← hym]; exact this)]
+
+theorem pop_zero_head (x : QItem) (rest : List QItem) (hmin : ∀ y ∈ rest, x.time ≤ y.time) :
+    pop 0 (x :: rest) = some (x, rest) := by
+  have hm := minTime_cons_of_le x rest hmin
+  have hc : ∃ c', minIdxs (x :: rest) = 0 :: c' := by
+    unfold minIdxs
+    rw [hm]
+    simp only [List.length_cons, List.range_succ_eq_map, List.filter_cons]
+    simp
+  obtain ⟨c', hc⟩ := hc
+  unfold pop
+  simp [hc]
+
+theorem col_drop (l lf : List Int) (k : Nat) (a : Int) (hl : l.length = k + 1) (hh : hd l = a) (hs : l <:+ lf) :
+    (lf.reverse.drop k).getD 0 0 = a := by
+  obtain ⟨ext, rfl⟩ := hs
+  cases l with
+  | nil => simp at hl
+  | cons b tl =>
+    have hb : b = a := hh
+    have htl : tl.reverse.length = k := by simp at hl ⊢; omega
+    have : (ext ++ b :: tl).reverse = tl.reverse ++ (b :: ext.reverse) := by simp
+    rw [this, List.drop_left' htl, hb]
+    rfl
+
+section Heapq
+variable {nodes : List Node} {nbrs : Node → List Node} {delay : Node → Node → ERat} {dur : Node → ERat}
+  {tmin : Rat} {tmax : ERat} {infs recs : List Node}
+
+theorem step_suffix {sel : Nat} {s s' : ESState}
+    (hs : step (tableParams nodes nbrs delay dur tmin tmax) sel s = some s') :
+    s.S <:+ s'.S ∧ s.I <:+ s'.I ∧ s.R <:+ s'.R := by
+  obtain ⟨x, l1, l2, _, _, hc⟩ := step_rows hs
+  rcases hc with ⟨_, _, _, _, _, _, _, _, f2, f3, f4⟩ | ⟨_, _, _, _, _, _, _, _, f2, f3, f4⟩ |
+    ⟨_, _, _, _, _, _, f2, f3, f4⟩
+  · rw [f2, f3, f4]; exact ⟨List.suffix_refl _, List.suffix_refl _, List.suffix_refl _⟩
+  · rw [f2, f3, f4]; exact ⟨List.suffix_cons _ _, List.suffix_cons _ _, List.suffix_cons _ _⟩
+  · rw [f2, f3, f4]; exact ⟨List.suffix_cons _ _, List.suffix_cons _ _, List.suffix_cons _ _⟩
+
+theorem loop_suffix (sel : Nat → Nat) (fuel : Nat) : ∀ (k : Nat) (s : ESState),
+    s.S <:+ (loop (tableParams nodes nbrs delay dur tmin tmax) sel fuel k s).S ∧
+    s.I <:+ (loop (tableParams nodes nbrs delay dur tmin tmax) sel fuel k s).I ∧
+    s.R <:+ (loop (tableParams nodes nbrs delay dur tmin tmax) sel fuel k s).R := by
+  induction fuel with
+  | zero => intro k s; exact ⟨List.suffix_refl _, List.suffix_refl _, List.suffix_refl _⟩
+  | succ fuel ih =>
+    intro k s
+    unfold EventSIR.loop
+    split
+    · exact ⟨List.suffix_refl _, List.suffix_refl _, List.suffix_refl _⟩
+    · rename_i s' hs
+      obtain ⟨a1, a2, a3⟩ := step_suffix hs
+      obtain ⟨b1, b2, b3⟩ := ih (k + 1) s'
+      exact ⟨a1.trans b1, a2.trans b2, a3.trans b3⟩
+
+/-- the initial event of `u` -/
+def iniEv (tmin : Rat) (u : Node) : QItem := ⟨tmin, QEv.trans none u⟩
+
+/-- state after the first `i` pops under `heapq` order: exactly the first `i` initial nodes have been infected -/
+structure Ph (nodes : List Node) (nbrs : Node → List Node) (delay : Node → Node → ERat) (dur : Node → ERat)
+    (tmin : Rat) (tmax : ERat) (infs recs : List Node) (i : Nat) (s : ESState) : Prop where
+  inv : Inv nodes nbrs delay dur tmin tmax infs recs s
+  queue : ∃ extra, s.queue = (infs.drop i).map (iniEv tmin) ++ extra ∧ ∀ x ∈ extra, tmin ≤ x.time
+  tr : ∀ e ∈ s.trans, ∃ j, j < i ∧ infs[j]? = some e.2.2
+  lenS : s.S.length = i + 1
+  lenI : s.I.length = i + 1
+  lenR : s.R.length = i + 1
+  hdS : hd s.S = (nodes.length : Int) - (i : Int) - (recs.length : Int)
+  hdI : hd s.I = (i : Int)
+  hdR : hd s.R = (recs.length : Int)
+
+theorem Ph.init (h : WF nodes nbrs delay dur infs recs) (htm : ERat.lt (some tmin) tmax = true) :
+    Ph nodes nbrs delay dur tmin tmax infs recs 0 (init (tableParams nodes nbrs delay dur tmin tmax) infs recs) where
+  inv := Inv.init h
+  queue := by
+    refine ⟨[], ?_, by simp⟩
+    show initQueue (tableParams nodes nbrs delay dur tmin tmax) infs [] = _
+    rw [initQueue_table, if_pos htm]
+    simp [iniEv]
+  tr := by intro e he; exact absurd he (by simp [EventSIR.init])
+  lenS := rfl
+  lenI := rfl
+  lenR := rfl
+  hdS := by
+    show (nodes.length : Int) - (recs.length : Int) = _
+    simp
+  hdI := rfl
+  hdR := rfl
+
+theorem Ph.step (h : WF nodes nbrs delay dur infs recs) {i : Nat} {s : ESState}
+    (hP : Ph nodes nbrs delay dur tmin tmax infs recs i s) (hi : i < infs.length) :
+    ∃ s', step (tableParams nodes nbrs delay dur tmin tmax) 0 s = some s' ∧
+      Ph nodes nbrs delay dur tmin tmax infs recs (i + 1) s' := by
+  obtain ⟨extra, hq, hex⟩ := hP.queue
+  rw [List.drop_eq_getElem_cons hi, List.map_cons, List.cons_append] at hq
+  have hu : infs[i] ∈ infs := List.getElem_mem hi
+  have hmin : ∀ y ∈ (infs.drop (i + 1)).map (iniEv tmin) ++ extra, (iniEv tmin infs[i]).time ≤ y.time := by
+    intro y hy
+    rcases List.mem_append.1 hy with hy | hy
+    · obtain ⟨v, _, rfl⟩ := List.mem_map.1 hy
+      exact le_refl _
+    · exact hex y hy
+  have hpop := pop_zero_head _ _ hmin
+  rw [← hq] at hpop
+  have hst : s.status infs[i] = St.S := by
+    refine (hP.inv.st_S _).2 ⟨h.disjoint _ hu, ?_⟩
+    intro e he heq
+    obtain ⟨j, hj, hje⟩ := hP.tr e he
+    rw [heq, ← List.getElem?_eq_getElem hi] at hje
+    have := (List.getElem?_inj (by omega) h.infs_nodup).1 hje
+    omega
+  have hs : EventSIR.step (tableParams nodes nbrs delay dur tmin tmax) 0 s =
+      some (processTrans (tableParams nodes nbrs delay dur tmin tmax)
+        { s with queue := (infs.drop (i + 1)).map (iniEv tmin) ++ extra } tmin none infs[i]) := by
+    unfold EventSIR.step
+    rw [hpop]
+    rfl
+  refine ⟨_, hs, ?_⟩
+  have p1 := processTrans_S nodes nbrs delay dur tmin tmax
+    { s with queue := (infs.drop (i + 1)).map (iniEv tmin) ++ extra } tmin none infs[i] hst
+  have p2 := processTrans_S_rows (nodes := nodes) (nbrs := nbrs) (delay := delay) (dur := dur) (tmin := tmin)
+    (tmax := tmax) { s with queue := (infs.drop (i + 1)).map (iniEv tmin) ++ extra } tmin none infs[i] hst
+  simp only at p1 p2
+  obtain ⟨_, _, _, pq, ptr⟩ := p1
+  obtain ⟨_, pS, pI, pR⟩ := p2
+  obtain ⟨r1, hq1, _, hr1, _⟩ := q1B_spec dur tmax ((infs.drop (i + 1)).map (iniEv tmin) ++ extra) tmin infs[i]
+  obtain ⟨ex, hq2, _, hexs⟩ := schedule_struct tmax tmin infs[i] (ERat.add (some tmin) (dur infs[i]))
+    ((susB nbrs s.status infs[i]).map fun v => (v, delay infs[i] v)) s.predInf
+    (q1B dur tmax ((infs.drop (i + 1)).map (iniEv tmin) ++ extra) tmin infs[i])
+  exact {
+    inv := hP.inv.step h hs
+    queue := by
+      refine ⟨extra ++ r1 ++ ex, ?_, ?_⟩
+      · rw [pq]; unfold schB; rw [hq2, hq1]; simp only [List.append_assoc]
+      · intro y hy
+        simp only [List.mem_append] at hy
+        rcases hy with (hy | hy) | hy
+        · exact hex y hy
+        · obtain ⟨t, rfl, g, _⟩ := hr1 y hy
+          obtain ⟨a, b, ha, hb, hab⟩ := ERat.add_eq_some.1 g
+          injection ha with ha
+          have := h.dur_nonneg _ b hb
+          show tmin ≤ t
+          linarith
+        · obtain ⟨v, d, t, hvd, rfl, g, _⟩ := hexs y hy
+          simp only [List.mem_map, Prod.mk.injEq] at hvd
+          obtain ⟨v', _, rfl, rfl⟩ := hvd
+          obtain ⟨a, b, ha, hb, hab⟩ := ERat.add_eq_some.1 g
+          injection ha with ha
+          have := h.delay_nonneg _ v' b hb
+          show tmin ≤ t
+          linarith
+    tr := by
+      intro e he
+      rw [ptr] at he
+      rcases List.mem_cons.1 he with rfl | he
+      · exact ⟨i, by omega, List.getElem?_eq_getElem hi⟩
+      · obtain ⟨j, hj, hje⟩ := hP.tr e he
+        exact ⟨j, by omega, hje⟩
+    lenS := by rw [pS, List.length_cons, hP.lenS]
+    lenI := by rw [pI, List.length_cons, hP.lenI]
+    lenR := by rw [pR, List.length_cons, hP.lenR]
+    hdS := by
+      rw [pS]
+      show hd s.S - 1 = _
+      rw [hP.hdS]; push_cast; omega
+    hdI := by
+      rw [pI]
+      show hd s.I + 1 = _
+      rw [hP.hdI]; push_cast; omega
+    hdR := by
+      rw [pR]
+      show hd s.R = _
+      exact hP.hdR }
+
+/-- **C05 core**: under `heapq` order row `len(initial_infecteds)` of the raw arrays is the requested initial condition -/
+theorem Ph.final (h : WF nodes nbrs delay dur infs recs) : ∀ (d i : Nat) (s : ESState), i + d = infs.length →
+    Ph nodes nbrs delay dur tmin tmax infs recs i s → ∀ (fuel idx : Nat),
+    (loop (tableParams nodes nbrs delay dur tmin tmax) (fun _ => 0) fuel idx s).queue = [] →
+    Pred.row (traj (loop (tableParams nodes nbrs delay dur tmin tmax) (fun _ => 0) fuel idx s) infs.length).cols 0 =
+      [(nodes.length : Int) - (infs.length : Int) - (recs.length : Int), (infs.length : Int), (recs.length : Int)] := by
+  intro d
+  induction d with
+  | zero =>
+    intro i s hi hP fuel idx _
+    have hik : i = infs.length := by omega
+    subst hik
+    obtain ⟨a1, a2, a3⟩ := loop_suffix (nodes := nodes) (nbrs := nbrs) (delay := delay) (dur := dur) (tmin := tmin)
+      (tmax := tmax) (fun _ => 0) fuel idx s
+    have c1 := col_drop _ _ _ _ hP.lenS hP.hdS a1
+    have c2 := col_drop _ _ _ _ hP.lenI hP.hdI a2
+    have c3 := col_drop _ _ _ _ hP.lenR hP.hdR a3
+    unfold traj rows Pred.row
+    simp only [List.map_cons, List.map_nil]
+    rw [c1, c2, c3]
+  | succ d ih =>
+    intro i s hi hP fuel idx hq
+    have hlt : i < infs.length := by omega
+    obtain ⟨s', hs, hP'⟩ := hP.step h hlt
+    cases fuel with
+    | zero =>
+      exfalso
+      obtain ⟨extra, hqe, _⟩ := hP.queue
+      rw [List.drop_eq_getElem_cons hlt] at hqe
+      have : (loop (tableParams nodes nbrs delay dur tmin tmax) (fun _ => 0) 0 idx s).queue = s.queue := rfl
+      rw [this, hqe] at hq
+      simp at hq
+      omega
+    | succ fuel =>
+      have hl : loop (tableParams nodes nbrs delay dur tmin tmax) (fun _ => 0) (fuel + 1) idx s =
+          loop (tableParams nodes nbrs delay dur tmin tmax) (fun _ => 0) fuel (idx + 1) s' := by
+        rw [EventSIR.loop]
+        simp only [hs]
+      rw [hl] at hq ⊢
+      exact ih (i + 1) s' (by omega) hP' fuel (idx + 1) hq
+
+end Heapq
+
 end EventSIR
